@@ -206,8 +206,25 @@ func evalCodec(cc codecCase) *Failure {
 			return mk("encode-panics", msg)
 		}
 		ref := refMulticodeEncode(g)
+		// the format fixes the record structure, not the order inside one vertex's list: the library's bytes
+		// must parse, by the format's rules, to exactly g (each edge once, under its smaller endpoint)
+		if pg, prob := refMulticodeParse(enc); prob != "" {
+			return mk("encoding-differs-from-format", fmt.Sprintf("%v is not a Multicode record: %s (a conforming encoding is %v)", enc, prob, ref))
+		} else if pg.key() != g.key() {
+			return mk("encoding-differs-from-format", fmt.Sprintf("%v encodes %s, not the graph (a conforming encoding is %v)", enc, clip(pg.key()), ref))
+		}
 		if !bytes.Equal(enc, ref) {
-			return mk("encoding-differs-from-format", fmt.Sprintf("%v vs %v", enc, ref))
+			var d0 *graph.DenseGraph
+			if msg, p := try(func() { d0 = graph.MulticodeDecode(enc) }); p {
+				return mk("decode-panics", "own encoding: "+msg)
+			}
+			got0, prob := egFromLib(d0)
+			if prob != "" {
+				return mk("decoded-graph-malformed", prob)
+			}
+			if got0.key() != g.key() {
+				return mk("round-trip", "own encoding: "+clip(got0.key()))
+			}
 		}
 		var d *graph.DenseGraph
 		if msg, p := try(func() { d = graph.MulticodeDecode(ref) }); p {
